@@ -48,10 +48,14 @@ class _FileBufferedContext(_CounterFuncContext):
         self._buffer_capacity = None
 
     def __exit__(self, exc_type, exc_val, exc_tb):
-        super().__exit__(exc_type, exc_val, exc_tb)
-        original_buffer_capacity = self._original_buffer_capacitys.pop()
-        if original_buffer_capacity is not None:
-            self._cls.set_buffer_capacity(original_buffer_capacity)
+        try:
+            super().__exit__(exc_type, exc_val, exc_tb)
+        finally:
+            # The flush may raise (BufferedError); the capacity that was in
+            # effect before this context must be restored regardless.
+            original_buffer_capacity = self._original_buffer_capacitys.pop()
+            if original_buffer_capacity is not None:
+                self._cls.set_buffer_capacity(original_buffer_capacity)
 
 
 class _BufferedLoadAndSave(_LoadAndSave):
